@@ -297,8 +297,11 @@ func checkC12(c *Ctx, w *World) {
 	}
 	okRecv := true
 	nDel := 0
-	for _, r := range returnsOf(recv) {
-		res := stripConv(oneOrigin(r.Results[0])) // through the result cell when the function has defers
+	for _, vr := range rcs.VirtualReturns() {
+		// (results read from the result cell of a function with defers, or merged from several branches, are split per way
+		// of arriving)
+		r := vr
+		res := stripConv(oneOrigin(vr.Vals[0]))
 		if call, isC := res.(*ssa.Call); isC && call.Call.IsInvoke() && call.Call.Method.Name() == "RecvMsg" {
 			nDel++
 			f, base, ok := loadedField(call.Call.Value)
@@ -306,7 +309,7 @@ func checkC12(c *Ctx, w *World) {
 				okRecv = false
 			}
 			// reached only when no error and a stream exists
-			if imp, _ := rcs.Implies(rcs.Reach(r), rcs.And(rcs.Atom("noErr"), rcs.Not(rcs.Atom("noStream")))); !imp {
+			if imp, _ := rcs.Implies(r.Cond, rcs.And(rcs.Atom("noErr"), rcs.Not(rcs.Atom("noStream")))); !imp {
 				okRecv = false
 			}
 			continue
@@ -314,14 +317,14 @@ func checkC12(c *Ctx, w *World) {
 		// or: the call's context ended while waiting — the context's own error (as a status), only when ctx.Err() != nil
 		// (a value merged from several branches is resolved to what it is on the ways that reach this return)
 		resolve := func(v ssa.Value) ssa.Value {
-			if rs := rcs.ResolveUnder(v, rcs.Reach(r)); len(rs) == 1 {
+			if rs := rcs.ResolveUnder(v, r.Cond); len(rs) == 1 {
 				return oneOrigin(rs[0])
 			}
 			return oneOrigin(v)
 		}
 		if ctxErrCall := contextErrOf(res, resolve); ctxErrCall != nil {
 			f, base, ok := loadedField(ctxErrCall.Call.Value)
-			imp, _ := rcs.Implies(rcs.Reach(r), rcs.Not(rcs.Atom("ctxAlive")))
+			imp, _ := rcs.Implies(r.Cond, rcs.Not(rcs.Atom("ctxAlive")))
 			if !ok || f != "gcpClientStream.ctx" || !isParamValue(base, r0) || !imp {
 				okRecv = false
 			}
@@ -331,7 +334,7 @@ func checkC12(c *Ctx, w *World) {
 		if !originsAll(res, func(o Origin) bool { return isLoadOf(o.Val, "gcpClientStream.initStreamErr") }) {
 			okRecv = false
 		}
-		if imp, _ := rcs.Implies(rcs.Reach(r), rcs.Not(rcs.Atom("noErr"))); !imp {
+		if imp, _ := rcs.Implies(r.Cond, rcs.Not(rcs.Atom("noErr"))); !imp {
 			okRecv = false
 		}
 	}
